@@ -232,6 +232,23 @@ def cmd_check(tier, prop):
     first = n_self  # the self-test already covered runs [0, n_self)
     _, not_run = runner.run_batch(specs_for(prop, seed, first, n_runs), timeout=prof["timeout"], budget_s=budget,
                                   on_result=on_result)
+    if prop == "C12" and not (os.environ.get("VERIF_STOP_ON_VIOLATION") and any(s not in known_sigs for s in fails)):
+        # systematic part: (warm-up, edit, probe, fault, lru capacity) combinations of a small catalogue;
+        # quick = a seeded sample, thorough = all of them
+        import random
+
+        from unytsim import regsim
+
+        total = regsim.SWEEP_TOTAL
+        if tier == "quick":
+            idxs = sorted(random.Random(f"{seed}:C12:sweep").sample(range(total), 400))
+        else:
+            idxs = list(range(total))
+        sweep_specs = [{"prop": "C12", "seed": seed, "run": 10_000_000 + i, "sweep": i} for i in idxs]
+        _, nr2 = runner.run_batch(sweep_specs, timeout=prof["timeout"], budget_s=(45 if tier == "quick" else 3600),
+                                  on_result=on_result)
+        not_run += nr2
+        log(f"C12 sweep: {len(idxs) - nr2} of {total} systematic cases run")
     batch_wall = time.monotonic() - t0
     if harness_errors:
         for he in harness_errors[:3]:
